@@ -262,7 +262,7 @@ int main(int argc, char** argv)
     "configurations incl. one with streamline diffusion) matrices == classic assemblers (1e-12 relative) and == exact integrals for polynomial test "
     "fields, scaling factor alpha, voxel Burgers vector == (voxel matrix)*primal. Colouring by the harness (greedy, vertex adjacency). Non-trivial: every case.";
   spec.bounds_quick = "Lagrange-2 on quads and hexas (the only spaces the voxel assemblers support), mesh family of c16_core.hpp";
-  spec.bounds_thorough = "larger mesh family";
+  spec.bounds_thorough = "3D: larger mesh family (2D uses the full family in both tiers)";
   spec.assumptions = {
     "OpenMP runtime is not explored: fixed thread counts as a sequential input check (threads: C17)",
     "harness colouring instead of UnitCubeColoring (which only exists for refined unit cubes)",
